@@ -54,9 +54,12 @@ pub fn main(args: &[String]) {
                 // attr: id hex(attribute token text)
                 "attr" => {
                     let ts: proc_macro2::TokenStream = text(p[1]).parse().unwrap();
+                    let canon = logos_codegen::verif::tokens_canonical(ts.clone());
                     let items = logos_codegen::verif::attr_items(ts);
-                    items.iter().map(|s| crate::hex(s.as_bytes())).collect::<Vec<_>>().join(" ")
+                    format!("{} {}", crate::hex(canon.as_bytes()), items.iter().map(|s| crate::hex(s.as_bytes())).collect::<Vec<_>>().join(" "))
                 }
+                // clicheck: id hex(path of input file) hex(path of cli output)
+                "clicheck" => crate::clicheck::check(&text(p[1]), &text(p[2])),
                 // pattern: id unicode icase hex(regex)
                 "pattern" => match logos_codegen::verif::pattern_info(&text(p[3]), p[1] == "1", p[2] == "1") {
                     Ok((prio, greedy, hir)) => format!("ok {prio} {} {hir}", greedy as u8),
